@@ -116,6 +116,12 @@ def main(argv=None):
         for need, minimum in (info.get('require') or {}).items():
             if acc.classes.get(need, 0) < minimum:
                 acc.errors.append(f'vacuity: class {need!r} count {acc.classes.get(need, 0)} < {minimum}')
+    # classes whose count depends on what the library returns (how many Fields a wavefront holds, how many calls were refused,
+    # whether a cosmic ray hit): a shortfall is reported and recorded, but it is not evidence against the code under test
+    soft = [f'class {need!r} count {acc.classes.get(need, 0)} < {minimum}' for need, minimum in (info.get('expect') or {}).items()
+            if acc.classes.get(need, 0) < minimum]
+    for sline in soft:
+        print(f'[{pid}] NOTE: expected coverage class not reached (library-dependent): {sline}')
 
     ev = {
         'property_id': pid, 'tier': a.tier, 'seed': seed, 'level': 'model_checking',
@@ -133,6 +139,7 @@ def main(argv=None):
             'outcome_classes': sorted(acc.outcomes)[:40],
             'classes': dict(sorted(acc.classes.items())),
             'known_findings_seen': seen_known,
+            'soft_shortfalls': soft,
             'violation_keys': new,
         },
         'assumptions': info.get('assumptions', []),
